@@ -94,7 +94,7 @@ Proof.
   - clear P7 T1. cases s w; brk; finq s.
   - clear Q2 Q3 Q4 P7 T1. cases s w; brk; finq s.
 Qed.
-Lemma initQ cb0 inb n scr ups sy : InvQ (init_sy cb0 inb n scr ups sy).
+Lemma initQ cb0 inb n scr ups sy nds pks : InvQ (init_rd cb0 inb n scr ups sy nds pks).
 Proof. constructor; unfold nsw; cbn; rewrite ?cz_repeat_false by reflexivity; uc; destruct cb0; cbn; lia. Qed.
 Lemma runQ sched s : InvAll s -> InvQ s -> InvQ (run sched s).
 Proof.
@@ -103,15 +103,15 @@ Proof.
 Qed.
 
 (* at closed quiescence nothing is left in pendingData or recvBuf (a read returns end-of-stream at once) *)
-Theorem no_residue cb0 inb nc scr ups sy sched :
-  let s := run sched (init_sy cb0 inb nc scr ups sy) in
+Theorem no_residue cb0 inb nc scr ups sy nds pks sched :
+  let s := run sched (init_rd cb0 inb nc scr ups sy nds pks) in
   st s = c_streamClosed -> epc s = EIdle -> (spc s = SIdle \/ spc s = SDone) ->
   (forall i g, nth_error (gors s) i = Some g -> g = GExit) ->
   (forall i c, nth_error (clos s) i = Some c -> c = KRet \/ c = KStart) ->
   pending s = [] /\ recv s = [] /\ read_res s = REndOfStream.
 Proof.
   intros s Hst He Hsp Hg Hc.
-  pose proof (runQ sched _ (initAll cb0 inb nc scr ups sy) (initQ cb0 inb nc scr ups sy)) as [Q2 Q3 Q4 _]. fold s in Q2, Q3, Q4.
+  pose proof (runQ sched _ (initAll cb0 inb nc scr ups sy nds pks) (initQ cb0 inb nc scr ups sy nds pks)) as [Q2 Q3 Q4 _]. fold s in Q2, Q3, Q4.
   assert (G0 : forall f, f GExit = false -> cz f (gors s) = 0).
   { intros f Hf. apply cz_all_false. intros j g Hj. rewrite (Hg j g Hj). exact Hf. }
   assert (C0 : forall f, f KRet = false -> f KStart = false -> cz f (clos s) = 0).
@@ -146,7 +146,7 @@ Proof.
   cases s w; brk; constructor; cbn [e_clrR]; cb; rw_eqs; rw_cnt; cb; cbn [e_clrR] in *; try assumption;
     czin; cb; uc; zeqh; uc; cb; cbn [e_clrR e_clr] in *; try lia; czpos s; lia.
 Qed.
-Lemma initV cb0 inb n scr ups sy : InvV (init_sy cb0 inb n scr ups sy).
+Lemma initV cb0 inb n scr ups sy nds pks : InvV (init_rd cb0 inb n scr ups sy nds pks).
 Proof. constructor; cbn; lia. Qed.
 Lemma runV sched s : InvAll s -> InvV s -> InvV (run sched s).
 Proof.
@@ -154,12 +154,12 @@ Proof.
   apply IH; [apply stepAll, HA|apply stepV; [apply HA|apply HA|exact HV]].
 Qed.
 
-Theorem view_stable cb0 inb nc scr ups sy sched :
-  let s := run sched (init_sy cb0 inb nc scr ups sy) in
+Theorem view_stable cb0 inb nc scr ups sy nds pks sched :
+  let s := run sched (init_rd cb0 inb nc scr ups sy nds pks) in
   cz g_run (gors s) >= 1 -> recv (step s WEv) = recv s.
 Proof.
   intros s Hrun.
-  pose proof (runV sched _ (initAll cb0 inb nc scr ups sy) (initV cb0 inb nc scr ups sy)) as [HV]. fold s in HV.
+  pose proof (runV sched _ (initAll cb0 inb nc scr ups sy nds pks) (initV cb0 inb nc scr ups sy nds pks)) as [HV]. fold s in HV.
   pose proof (cz_nonneg g_cb (gors s)).
   cbn [step]. unfold estep. destruct (epc s) eqn:Ee; cbn [e_clrR] in HV; try lia.
   all: repeat match goal with
@@ -178,7 +178,7 @@ Record InvN (s : est) : Prop := {
   n_ret : st s = c_streamOpened -> nret s = 0 }.
 Lemma stepN s w : InvP s -> InvN s -> InvN (step s w).
 Proof. intros [_ P2 P3 P3s _ _] [N1 N2]. cases s w; brk; constructor; fin s. Qed.
-Lemma initN cb0 inb n scr ups sy : InvN (init_sy cb0 inb n scr ups sy).
+Lemma initN cb0 inb n scr ups sy nds pks : InvN (init_rd cb0 inb n scr ups sy nds pks).
 Proof. constructor; cbn; [lia|auto]. Qed.
 Lemma runN sched s : InvAll s -> InvN s -> InvN (run sched s).
 Proof.
@@ -222,7 +222,7 @@ Proof.
       destruct aft; [exfalso; apply (Hp m); reflexivity|reflexivity].
     + intros m0; discriminate.
 Qed.
-Lemma initU cb0 inb n scr ups sy : Forall u_ok (users (init_sy cb0 inb n scr ups sy)).
+Lemma initU cb0 inb n scr ups sy nds pks : Forall u_ok (users (init_rd cb0 inb n scr ups sy nds pks)).
 Proof.
   cbn. induction ups as [|p ups IH]; cbn; constructor; auto. split; cbn; [constructor|intros m; discriminate].
 Qed.
@@ -232,8 +232,8 @@ Proof.
   apply IH; [apply stepAll, HA|apply stepN; [apply HA|exact HN]|apply stepU; auto].
 Qed.
 
-Theorem final_ops cb0 inb nc scr ups sy sched :
-  let s := run sched (init_sy cb0 inb nc scr ups sy) in
+Theorem final_ops cb0 inb nc scr ups sy nds pks sched :
+  let s := run sched (init_rd cb0 inb nc scr ups sy nds pks) in
   (* every Flush whose state check came after a returned Close() failed, and none is about to send *)
   (forall i u, nth_error (users s) i = Some u ->
      Forall (fun r => snd r = true -> fst r = false) (ures u) /\ (forall m, upc u <> UPut m true)) /\
@@ -241,8 +241,8 @@ Theorem final_ops cb0 inb nc scr ups sy sched :
   (0 < nret s -> st s <> c_streamOpened /\ flush_res s = RErrStreamClosed /\ read_res s <> RBlocked).
 Proof.
   intros s.
-  pose proof (runN sched _ (initAll cb0 inb nc scr ups sy) (initN cb0 inb nc scr ups sy)) as [N1 N2]. fold s in N1, N2.
-  pose proof (runU sched _ (initAll cb0 inb nc scr ups sy) (initN cb0 inb nc scr ups sy) (initU cb0 inb nc scr ups sy)) as HU.
+  pose proof (runN sched _ (initAll cb0 inb nc scr ups sy nds pks) (initN cb0 inb nc scr ups sy nds pks)) as [N1 N2]. fold s in N1, N2.
+  pose proof (runU sched _ (initAll cb0 inb nc scr ups sy nds pks) (initN cb0 inb nc scr ups sy nds pks) (initU cb0 inb nc scr ups sy nds pks)) as HU.
   fold s in HU. split.
   - intros i u Hi. destruct (Forall_nth _ _ _ _ HU Hi) as [Hr Hp]. split; [|exact Hp].
     rewrite Forall_forall in *. intros [ok aft] Hin Haft. specialize (Hr _ Hin). unfold r_ok in Hr. cbn in *.
@@ -291,8 +291,8 @@ Proof.
 Qed.
 
 (* order / exactly once, over the fine steps *)
-Theorem order_once_fine cb0 inb nc scr ups sy sched :
-  let s := base (frun sched (finit (init_sy cb0 inb nc scr ups sy))) in
+Theorem order_once_fine cb0 inb nc scr ups sy nds pks sched :
+  let s := base (frun sched (finit (init_rd cb0 inb nc scr ups sy nds pks))) in
   arrived s = concat (map snd (chunks s)) ++ concat (pending s) /\
   moved s = concat (map snd (filter fst (chunks s))) /\
   (st s <> c_streamClosed -> arrived s = consumed s ++ recv s ++ concat (pending s)).
